@@ -196,3 +196,53 @@ Example C09_drained_nonvacuous :
   pshuffle_shape [60; 62; 64] 2 9 = [false; false; false; false; false; false; true; true; true] /\
   pwhite_shape 2 5 = [false; false; true; true; true].
 Proof. repeat split; vm_compute; reflexivity. Qed.
+
+(* ------------------------------------------------------------------------------------------------------------
+   PATTERN GRAPHS WITH A SHARED SUB-PATTERN OBJECT (DAGs, not trees).  Model Pat/Dag.v: the stateful objects of a
+   program live in a heap, by address; an operator expression / a PDict over such expressions may refer to the same
+   address any number of times, so one next() on the root advances a shared cell once per occurrence, in evaluation
+   order (cells are ANY object of Pat/Syntax.v, advanced by Step.step).  copy() is copy.deepcopy with ONE memo
+   (copy_root: every reachable cell copied once to a fresh address, references redirected through the memo).
+   Lemmas Pat/DagProofs.v: a renamed graph over a heap that agrees on the renamed addresses simulates the original and
+   leaves every other address alone (dstep_sim / rstep_sim); deepcopy-with-memo is an injective renaming onto fresh
+   addresses (winv_copy). *)
+From Isobar Require Import Pat.Dag Pat.DagProofs.
+Open Scope Z_scope.
+
+(* For EVERY graph (any sharing), every heap it is allocated in, and EVERY script of next() / nextn(n) / copy() on any
+   number of handles (copies of copies included): each observation is what repeated next() on the ORIGINAL ALONE gives
+   at the position of the handle it is made on - a copy starts at the position of the handle it is taken from
+   ([simulate] is the oracle of harness/c09.py).  So a copy continues with exactly the output the original would have
+   produced, and advancing any handle never affects another one. *)
+Theorem C09_dag_copy_interleavings : forall binop LMAX fuel (r0 : droot) (h0 : heap), wf r0 h0 -> forall ops,
+  dtrace binop LMAX fuel ([r0], h0) ops = simulate (rout binop LMAX fuel r0 h0) [O] ops.
+Proof. intros binop LMAX fuel r0 h0 WF ops. exact (dag_interleavings binop LMAX fuel r0 h0 WF ops). Qed.
+Print Assumptions C09_dag_copy_interleavings.
+
+(* read off: copy after m calls; the original makes j more calls, then the copy n: the original yields calls m.. of the
+   run alone, and so does the copy *)
+Theorem C09_dag_copy_continues : forall binop LMAX fuel (r0 : droot) (h0 : heap), wf r0 h0 -> forall m j n,
+  let s := rout binop LMAX fuel r0 h0 in
+  dtrace binop LMAX fuel ([r0], h0) (repeat (DNext O) m ++ [DCopy O] ++ repeat (DNext O) j ++ repeat (DNext 1%nat) n ++ []) =
+  map s (seq 0 m) ++ map s (seq m j) ++ map s (seq m n).
+Proof. intros binop LMAX fuel r0 h0 WF m j n. exact (dag_copy_continues binop LMAX fuel r0 h0 WF m j n). Qed.
+Print Assumptions C09_dag_copy_continues.
+
+(* non-vacuity and negative control:  c = PSeries(0, 1, 10); p = PDict({"note": c + 60, "amplitude": c * 10})  draws twice
+   from c per event; a copy taken after two events continues with (64, 50) like the original, interleaved with it, and
+   nextn drains both to the same end; copying the pattern under each key with a memo of its own (seeded change C09-f)
+   yields (64, 40) instead *)
+Example C09_dag_nonvacuous :
+  let c := PSeries (VInt 0) (VInt 0) (AV (VInt 1)) (AV (VInt 10)) 0 in
+  let kv := [("note"%string, DBin OAdd (DRef 0) (DVal (VInt 60))); ("amplitude"%string, DBin OMul (DRef 0) (DVal (VInt 10)))] in
+  let ev (a b : Z) := VDict [("note"%string, VInt a); ("amplitude"%string, VInt b)] in
+  wf (RDict kv) [c] /\
+  dtrace Val.binop 100 30 ([RDict kv], [c]) [DNext 0; DNext 0; DCopy 0; DNext 1; DNext 0; DNext 1; DNextN 1 5; DNextN 0 5]%nat =
+    [Yield (ev 60 10); Yield (ev 62 30); Yield (ev 64 50); Yield (ev 64 50); Yield (ev 66 70);
+     Yield (VList [ev 68 90]); Yield (VList [ev 66 70; ev 68 90])] /\
+  (let h2 := rrun Val.binop 100 30 2 (RDict kv) [c] in
+   fst (rstep Val.binop 100 30 (fst (copy_root (RDict kv) h2)) (snd (copy_root (RDict kv) h2))) = Yield (ev 64 50) /\
+   let '(kv', h') := copy_per_key kv h2 in fst (rstep Val.binop 100 30 (RDict kv') h') = Yield (ev 64 40)).
+Proof.
+  split; [intros a [<-|[<-|[]]]; cbn; lia|]. split; [vm_compute; reflexivity|]. split; vm_compute; reflexivity.
+Qed.
